@@ -98,14 +98,17 @@ theorem gaussian_block_is_k3_spec (k : Nat) (a b c d : ℝ) (V : Gauss.XP ℝ)
       GaussSem.ofXP (Gauss.linMap (Gauss.rows1 k a b c d) V) :=
   GaussSem.loc1_eq_linMap k a b c d V hxx hpp
 
-/-- merge rules of the single-target Gaussian families are sound for the physical interpretation
-(instance of `merge_sound_partial`; `MZgate` is two-mode, so nothing is excluded here) -/
-theorem merge_sound_gaussian (θ : Nat → Rat) (a b : Cmd) (h1 : a.regs.length = 1) (hr : a.regs = b.regs)
+/-- **merge rules are sound for the physical Gaussian interpretation**, on one target or two different
+targets: `Rgate`/`Sgate`/`Pgate`/`Dgate`/`Xgate`/`Zgate`/`Fouriergate`/(thermal) loss/preparations and
+`BSgate`/`S2gate` (equal phase), `CXgate`, `CZgate` — `None` only for the identity channel, otherwise the
+merged command implements the composition (instance of `merge_sound_partial`; the additive laws are
+proved in `SFV.Proofs.OptimizeGauss` from the angle-addition formulas) -/
+theorem merge_sound_gaussian (θ : Nat → Rat) (a b : Cmd) (hdom : GaussSem.Dom2 a.regs) (hr : a.regs = b.regs)
     (hda : a.deps = []) (hdb : b.deps = []) (hK : a.cls ∉ knownUnlawful) :
     (opMerge a b = .identity → GaussSem.gf θ a * GaussSem.gf θ b = 1) ∧
     (∀ op, opMerge a b = .merged op →
       ∀ i, GaussSem.gf θ a * GaussSem.gf θ b = GaussSem.gf θ { op with id := i, regs := a.regs }) :=
-  merge_sound_partial (GaussSem.gf θ) _ (GaussSem.gaussLawful θ) a b h1 hr hda hdb hK
+  merge_sound_partial (GaussSem.gf θ) _ (GaussSem.gaussLawful2 θ) a b hdom hr hda hdb hK
 
 /-- twice the documented Mach–Zehnder matrix `U(φ_in, φ_ex)` with `u = e^{iφ_in}`, `v = e^{iφ_ex}`
 Gaussian integers `(re, im)`: `[[(-1+u)v, i(1+u)], [i(1+u)v, 1-u]]` -/
@@ -147,6 +150,17 @@ theorem optimize_pure (B : Nat) (row : List Cmd) : ∀ c ∈ optRow B row, c ∈
 theorem optimize_terminates (B : Nat) (row : List Cmd) (k : Nat) :
     optLoop (tryMerge B) (optFuel row.length + k) [] row = optRow B row :=
   optLoop_fuel_add (tryMerge B) row k
+
+/-- **completeness.**  In an optimised row no two neighbours can be merged any more: the loop body
+leaves every neighbouring pair alone (the backtracking `i -= 1` is what makes this true) -/
+theorem optimize_complete (B : Nat) (row : List Cmd) :
+    List.IsChain (fun a b => tryMerge B a b = .advance) (optRow B row) :=
+  optRow_chain B row
+
+/-- **idempotence.**  Optimising an optimised row changes nothing (whatever identities new commands
+would get) — the harness checks `optimize()` of an optimised program against this -/
+theorem optimize_idempotent (B B' : Nat) (row : List Cmd) : optRow B' (optRow B row) = optRow B row :=
+  optRow_idem B B' row
 
 /-- the optimiser never lengthens a wire -/
 theorem optRow_length_le (B : Nat) (row : List Cmd) : (optRow B row).length ≤ row.length := by
@@ -262,6 +276,20 @@ example :
     opMerge { id := 0, cls := "GaussianTransform", regs := [0], pars := [.num 2, .num 0, .num 0, .num (1/2)] }
       { id := 1, cls := "GaussianTransform", regs := [0], pars := [.num (1/2), .num 0, .num 0, .num 2] } = .identity := by
   decide +kernel
+
+example : optRow 40 (optRow 12 (gridRow ex 2)) = optRow 12 (gridRow ex 2) ∧
+    (optRow 12 (gridRow ex 2)).length < (gridRow ex 2).length := by decide +kernel
+
+def bsA : Cmd := { id := 0, cls := "BSgate", regs := [2, 0], pars := [.num (1/2), .num (1/4)] }
+def bsB : Cmd := { id := 1, cls := "BSgate", regs := [2, 0], pars := [.num (1/4), .num (1/4)], dagger := true }
+def bsM : Cmd := { bsA with pars := [.num (1/4), .num (1/4)] }
+
+/-- two beamsplitters on the same (descending) ordered pair, the second daggered, are merged by
+`merge` (not by the optimiser) into `BSgate(1/2 − 1/4, 1/4)`, and the physical interpretation agrees -/
+example (θ : Nat → Rat) :
+    GaussSem.gf θ bsA * GaussSem.gf θ bsB = GaussSem.gf θ { bsM with id := 7, regs := bsA.regs } :=
+  (merge_sound_gaussian θ bsA bsB (Or.inr ⟨2, 0, rfl, by decide⟩) rfl rfl rfl (by decide)).2 bsM
+    (by decide +kernel) 7
 
 example : optRow 12 (gridRow ex 3) = [ex[9]!, ex[10]!] ∧ (optRow 12 (gridRow ex 2)).length = 2 := by decide +kernel
 
